@@ -83,11 +83,10 @@ func (allLinkInfo ListLinkInfo) Evaluate(pagePattern pattern.PagePattern, ascend
 	if len(allLinkInfo) == 1 && firstPageURL != "" {
 		onlyLink := allLinkInfo[0]
 		secondPageIsOutLink := onlyLink.PageNumber == 2 && onlyLink.PosInAscendingList == 1
-		thirdPageIsOutLink := onlyLink.PageNumber == 3 && onlyLink.PosInAscendingList == 2
-
-		// onlyLink's pos is 2 (evaluated right before), so ascendingNumbers has >= 3
-		// elements; check if previous element is previous page.
-		ascendingNumbers[1].PageNumber = 2
+		thirdPageIsOutLink := onlyLink.PageNumber == 3 && onlyLink.PosInAscendingList == 2 &&
+			// onlyLink's pos is 2 (evaluated right before), so ascendingNumbers has >= 3
+			// elements; check if previous element is previous page.
+			ascendingNumbers[1].PageNumber == 2
 
 		// 1 PageLinkInfo means ascendingNumbers has >= 1 element.
 		if ascendingNumbers[0].PageNumber == 1 && (secondPageIsOutLink || thirdPageIsOutLink) &&
